@@ -276,15 +276,19 @@ func (y *YangType) Equal(t *YangType) bool {
 		len(y.Range) != len(t.Range),
 		!y.Range.Equal(t.Range),
 		!tsEqual(y.Type, t.Type),
-		!cmp.Equal(y.Enum, t.Enum, cmp.Comparer(func(t, u EnumType) bool {
-			return cmp.Equal(t.unique, u.unique) && cmp.Equal(t.ToInt, u.ToInt) && cmp.Equal(t.ToString, u.ToString)
-		})):
+		!cmp.Equal(y.Enum, t.Enum, enumTypeComparer),
+		!cmp.Equal(y.Bit, t.Bit, enumTypeComparer):
 
 		return false
 	}
-	// TODO(borman): Base, Bit
+	// TODO(borman): Base
 	return true
 }
+
+// enumTypeComparer compares the members of two enumeration or bits types.
+var enumTypeComparer = cmp.Comparer(func(t, u EnumType) bool {
+	return cmp.Equal(t.unique, u.unique) && cmp.Equal(t.ToInt, u.ToInt) && cmp.Equal(t.ToString, u.ToString)
+})
 
 // typedef returns a Typedef created from y for insertion into the BaseTypedefs
 // map.
